@@ -425,4 +425,28 @@ theorem attrsSelected_single (ns : NsMap) (xvs : XVars) (q : LocPath) (a : Step)
     | false => simp
     | true => simpa using filter_attrNodes a.test ns tg ats ks
 
+/-- from "the matcher marks the nodes reached through `q` and reports the value of the
+    attribute test there" to `Path.select` = `Ref.xpSelect` for `q/@t` -/
+theorem xpSelect_attr_of_marks (ns : NsMap) (xvs : XVars) (q : LocPath) (a : Step)
+    (ha : a.axis = .attribute) (hat : a.test.isAttrName = true) (hawf : a.test.wf ns = true)
+    (tag : QName) (attrs : AttrList) (kids : List Node)
+    (hrok : (Node.elem tag attrs kids).ok = true) (hnok : AllNodes (fun n => nodeOk n) (.elem tag attrs kids))
+    (mk : List Nat → Bool)
+    (hmk : ∀ x, mk x = reach ns xvs q ⟨[], .elem tag attrs kids⟩ ⟨x, .elem tag attrs kids⟩) :
+    emitV 0 (Node.elem tag attrs kids).flatten
+        (List.zipWith (fun e v => gate (a.test.apply e ns) v) (Node.elem tag attrs kids).flatten
+          (markVals mk (eventLocs (.elem tag attrs kids) [])))
+      = xpSelect [q ++ [a]] ns xvs (.elem tag attrs kids) := by
+  have hshape := attrShaped_of_isAttrName a.test ns hat
+  rw [emitV_flat _ _ (zipWith_gate_ne_true a.test ns hshape _ _), emitAttr a.test ns _ hshape _ hrok []]
+  unfold xpSelect
+  have hsel : nodeSelected [q ++ [a]] ns xvs ⟨[], .elem tag attrs kids⟩ = fun _ => false := by
+    funext n
+    simp [nodeSelected, ha]
+  rw [hsel]
+  apply pick_congr_asel (fun n => nodeOk n) _ _ _ _ _ _ hnok
+  intro m hm
+  rw [aselM_eq a.test ns _ m hm hat hawf, attrsSelected_single ns xvs q a ha, hmk,
+    reach_loc ns xvs q _ ⟨m.loc, .elem tag attrs kids⟩ m rfl]
+
 end Genshi.Path
